@@ -120,7 +120,7 @@ const JUNK: u32 = 0xFFFF_0000;
 
 /// Graph built through a history: junk nodes/edges interleaved, then removed (swap-remove
 /// renumbering scrambles indices); correspondence recovered from the node weights.
-pub fn graph_shuffled<Ty: EdgeType, Ix: IndexType, W>(
+pub fn graph_shuffled<Ty: EdgeType, Ix: IndexType, W: Clone>(
     abs: &Abs,
     rng: &mut Rng,
     fw: impl Fn(i64) -> W,
@@ -165,6 +165,17 @@ pub fn graph_shuffled<Ty: EdgeType, Ix: IndexType, W>(
             None => break,
         }
     }
+    // a third of the states are reached through clone_from into an unrelated, differently sized graph
+    if rng.chance(1, 3) {
+        let mut other = Graph::<u32, W, Ty, Ix>::with_capacity(0, 0);
+        let k = 1 + rng.below(2 * abs.n.min(12) + 3);
+        let ns: Vec<_> = (0..k).map(|_| other.add_node(JUNK)).collect();
+        for _ in 0..rng.below(2 * abs.m().min(12) + 3) {
+            other.add_edge(ns[rng.below(k)], ns[rng.below(k)], fw(4));
+        }
+        other.clone_from(&g);
+        g = other;
+    }
     let mut ids = vec![NodeIndex::<Ix>::end(); abs.n];
     for i in g.node_indices() {
         ids[g[i] as usize] = i;
@@ -172,7 +183,7 @@ pub fn graph_shuffled<Ty: EdgeType, Ix: IndexType, W>(
     Enc { g, ids, holes: false }
 }
 
-pub fn stable_holes<Ty: EdgeType, Ix: IndexType, W>(
+pub fn stable_holes<Ty: EdgeType, Ix: IndexType, W: Clone>(
     abs: &Abs,
     rng: &mut Rng,
     fw: impl Fn(i64) -> W,
@@ -214,6 +225,25 @@ pub fn stable_holes<Ty: EdgeType, Ix: IndexType, W>(
         let a = ids[rng.below(abs.n)];
         junk_edges.push(g.add_edge(a, a, fw(1)));
     }
+    // the nodes to be removed carry edges of their own (self-loops, to / from live nodes, to each other), which
+    // remove_node has to unlink from the live nodes' lists
+    for k in 0..junk_nodes.len() {
+        let j = junk_nodes[k];
+        if rng.coin() {
+            g.add_edge(j, j, fw(1));
+        }
+        if abs.n > 0 && rng.coin() {
+            let r = ids[rng.below(abs.n)];
+            if rng.coin() {
+                g.add_edge(j, r, fw(2));
+            } else {
+                g.add_edge(r, j, fw(2));
+            }
+        }
+        if k > 0 && rng.chance(1, 3) {
+            g.add_edge(junk_nodes[k - 1], j, fw(3));
+        }
+    }
     rng.shuffle(&mut junk_edges);
     for e in junk_edges {
         g.remove_edge(e);
@@ -221,6 +251,20 @@ pub fn stable_holes<Ty: EdgeType, Ix: IndexType, W>(
     rng.shuffle(&mut junk_nodes);
     for j in junk_nodes {
         g.remove_node(j);
+    }
+    // a third of the states are reached through clone_from into an unrelated, differently sized graph with vacancies
+    if rng.chance(1, 3) {
+        let mut other = StableGraph::<u32, W, Ty, Ix>::with_capacity(0, 0);
+        let k = 1 + rng.below(2 * abs.n.min(12) + 3);
+        let ns: Vec<_> = (0..k).map(|_| other.add_node(JUNK)).collect();
+        for _ in 0..rng.below(2 * abs.m().min(12) + 3) {
+            other.add_edge(ns[rng.below(k)], ns[rng.below(k)], fw(4));
+        }
+        for _ in 0..rng.below(3) {
+            other.remove_node(ns[rng.below(k)]);
+        }
+        other.clone_from(&g);
+        g = other;
     }
     Enc { g, ids, holes: true }
 }
@@ -291,6 +335,25 @@ pub fn matrix<Ty: EdgeType, W>(
         let (u, v, w) = abs.edges[i];
         g.add_edge(ids[u], ids[v], fw(w));
     }
+    // the nodes to be removed carry edges of their own - a self-loop, edges to and from live nodes and to each other -
+    // which must all disappear with them
+    for (k, &j) in junk.iter().enumerate() {
+        if rng.coin() {
+            g.add_edge(j, j, fw(1));
+        }
+        if abs.n > 0 && rng.coin() {
+            let r = ids[rng.below(abs.n)];
+            if rng.coin() || !abs.directed {
+                g.add_edge(j, r, fw(2));
+            } else {
+                g.add_edge(r, j, fw(2));
+            }
+        }
+        if k > 0 && rng.chance(1, 3) {
+            g.add_edge(junk[k - 1], j, fw(3));
+        }
+    }
+    rng.shuffle(&mut junk);
     for j in junk {
         g.remove_node(j);
     }
